@@ -1281,6 +1281,7 @@ namespace xsimd
                         // x >= 1.5
                         while (any(xge150 && txgt250))
                         {
+                            XSIMD_VERIF_LOOP_TICK();
                             nx = select(txgt250, nx - batch_type(1.), nx);
                             tx = select(txgt250, x + nx, tx);
                             z = select(txgt250, z * tx, z);
@@ -1320,6 +1321,7 @@ namespace xsimd
                             auto orig = txlt150;
                             while (any(txlt150))
                             {
+                                XSIMD_VERIF_LOOP_TICK();
                                 z = select(txlt150, z * tx, z);
                                 nx = select(txlt150, nx + batch_type(1.), nx);
                                 tx = select(txlt150, x + nx, tx);
@@ -1396,6 +1398,7 @@ namespace xsimd
                         auto test1 = (u >= batch_type(3.));
                         while (any(test1))
                         {
+                            XSIMD_VERIF_LOOP_TICK();
                             p = select(test1, p - batch_type(1.), p);
                             u = select(test1, x + p, u);
                             z = select(test1, z * u, z);
@@ -1405,6 +1408,7 @@ namespace xsimd
                         auto test2 = (u < batch_type(2.));
                         while (any(test2))
                         {
+                            XSIMD_VERIF_LOOP_TICK();
                             z = select(test2, z / u, z);
                             p = select(test2, p + batch_type(1.), p);
                             u = select(test2, x + p, u);
@@ -2443,6 +2447,7 @@ namespace xsimd
                 auto test1 = (x >= B(3.));
                 while (any(test1))
                 {
+                    XSIMD_VERIF_LOOP_TICK();
                     x = select(test1, x - B(1.), x);
                     z = select(test1, z * x, z);
                     test1 = (x >= B(3.));
@@ -2450,6 +2455,7 @@ namespace xsimd
                 test1 = (x < B(0.));
                 while (any(test1))
                 {
+                    XSIMD_VERIF_LOOP_TICK();
                     z = select(test1, z / x, z);
                     x = select(test1, x + B(1.), x);
                     test1 = (x < B(0.));
@@ -2457,6 +2463,7 @@ namespace xsimd
                 auto test2 = (x < B(2.));
                 while (any(test2))
                 {
+                    XSIMD_VERIF_LOOP_TICK();
                     z = select(test2, z / x, z);
                     x = select(test2, x + B(1.), x);
                     test2 = (x < B(2.));
